@@ -6,7 +6,6 @@ use plonky2::field::goldilocks_field::GoldilocksField as F;
 use plonky2::fri::reduction_strategies::FriReductionStrategy;
 use plonky2::plonk::config::{GenericConfig, Hasher, KeccakGoldilocksConfig, PoseidonGoldilocksConfig};
 use rand::Rng;
-use rayon::prelude::*;
 use serde_json::{json, Value};
 
 use crate::circ::{self, GenOpts, Proven, D};
@@ -208,36 +207,49 @@ pub fn run(tier: Tier) -> ! {
     let n: u64 = run.pick(48, 2000);
     let seed = run.seed;
     let only = run.only_case;
-    let outs: Vec<(u64, Out)> = (0..n)
-        .into_par_iter()
-        .filter(|c| only.map(|o| o == *c).unwrap_or(true))
-        .map(|case| (case, if case % 4 == 2 { case_run::<KeccakGoldilocksConfig>(seed, case, "keccak", quick) } else { case_run::<PoseidonGoldilocksConfig>(seed, case, "poseidon", quick) }))
-        .collect();
+    // Cases run in 16 single-threaded worker processes: with one in-process pool, work stealing
+    // interleaves many half-finished cases (each holding a circuit and its proofs) and the resident
+    // set grows to tens of GB over 2 000 cases.
     let mut total_repeats = 0u64;
     let mut total_shared = 0u64;
-    for (case, o) in outs {
-        run.evals(o.evals);
-        if let Some(k) = o.key {
-            run.nontrivial(k);
-        }
-        for (k, v) in o.collisions {
-            if k.starts_with("repeated") {
-                total_repeats += v;
+    if Run::shard_spec().is_none() && only.is_none() {
+        run.run_shards(16, 1, 3 * 3600);
+        total_repeats = run.counter("index_multiset_total.repeated");
+        total_shared = run.counter("index_multiset_total.shared");
+    } else {
+        for case in 0..n {
+            if !Run::in_shard(case) || only.map(|o| o != case).unwrap_or(false) {
+                continue;
             }
-            if k.starts_with("shared") {
-                total_shared += v;
+            let o = if case % 4 == 2 { case_run::<KeccakGoldilocksConfig>(seed, case, "keccak", quick) } else { case_run::<PoseidonGoldilocksConfig>(seed, case, "poseidon", quick) };
+            run.evals(o.evals);
+            if let Some(k) = o.key {
+                run.nontrivial(k);
             }
-            run.count(&format!("index_multiset.{k}"), v);
+            for (k, v) in o.collisions {
+                if k.starts_with("repeated") {
+                    total_repeats += v;
+                    run.count("index_multiset_total.repeated", v);
+                }
+                if k.starts_with("shared") {
+                    total_shared += v;
+                    run.count("index_multiset_total.shared", v);
+                }
+                run.count(&format!("index_multiset.{k}"), v);
+            }
+            if let Some(e) = o.not_built {
+                run.count(&format!("not_built: {e}"), 1);
+            }
+            if let Some(s) = o.sample {
+                run.sample(s);
+            }
+            for (sig, d) in o.fails {
+                run.violation(&sig, case, d);
+            }
         }
-        if let Some(e) = o.not_built {
-            run.count(&format!("not_built: {e}"), 1);
-        }
-        if let Some(s) = o.sample {
-            run.sample(s);
-        }
-        for (sig, d) in o.fails {
-            run.violation(&sig, case, d);
-        }
+    }
+    if Run::is_sub() {
+        run.finish()
     }
     if (total_repeats == 0 || total_shared == 0) && run.only_case.is_none() {
         run.inconclusive("no repeated index / shared coset was observed — the collision paths of compression were not exercised");
